@@ -715,8 +715,12 @@ def run(ctx):
         else:
             oracle_gradient(ctx, cuqi, verdicts, *job[1:])
     # a broken tie needs a failing input with the same key: mirror oracle failures onto tie keys
+    from harness.core import KnownMap
+    open_known = KnownMap([k for k in ctx.known if k.get("status", "open") == "open"])
     failed_sites = {}
     for f in ctx.failures:
+        if f["key"] in open_known:
+            continue     # a listed finding does not explain a new disagreement
         failed_sites.setdefault(f["case"].get("seed_index"), []).append(f)
     for key, descs in tie_bad.items():
         for desc in descs:
